@@ -227,13 +227,14 @@ CHECKS.update({
     "C06": dict(
         text="Model programs from a statement algebra (marker assignments, gate calls with ordered parameters / operands / modifiers, subroutine "
              "calls, barrier, measure, reset, if/else with block and single-statement bodies in every combination, while, for over range / "
-             "stepped range / set, switch with several cases and default, gate and def bodies, annotations, pragmas, every binary and unary "
+             "stepped range / set, switch with several cases and default, gate and def bodies, annotations at top level and inside blocks, pragmas, "
+             "assignments with identifier / indexed target and identifier / indexed / literal value in every combination, every binary and unary "
              "operator, every literal class), nested to depth 3-4, are parsed by the real parser and analysed by ALL of syntax_to_semantic "
              "from MIR. Every marker is a symbolic decimal digit: `statement j of block B carries marker j` and `operand j is the j-th "
              "written` are solver obligations, so swapped, duplicated, dropped or misplaced statements cannot hide behind equal literals. The "
              "decoded graph is compared node by node with the skeleton predicted from the model.",
         note="Trusted: the skeleton predictor (vf/h_c06.py), tree / map / string models, MIR dump, z3; counterexamples confirmed by "
-             "engine==native on the concrete text. Bounds: 155 (quick) / ~180 model programs, nesting <= 3 (one depth-4 program) instead of "
+             "engine==native on the concrete text. Bounds: 222 (quick) / ~250 model programs, nesting <= 3 (one depth-4 program) instead of "
              "the property's 5; include expansion is C18's; operators the analyser rejects with a panic are C03 findings and skipped here.",
         technique=S2, design="6/C06"),
 })
